@@ -110,7 +110,7 @@ Proof. vm_compute. reflexivity. Qed.
    Both directions of a structure with a descriptor LIST, over the REGENERATED bodies of builder and decoder (Gen/PyFuncs.v) under the
    semantics of the small Python (Model/Py.v): GET LBA STATUS, any number of descriptors. *)
 From Coq Require Import ZArith List.
-From PS Require Import Model.Py Proofs.PyParsers Proofs.PyTotal Proofs.PyRoundTrip Proofs.PyRoundTrip2 Gen.PyFuncs.
+From PS Require Import Model.Py Proofs.PyParsers Proofs.PyTotal Proofs.PyRoundTrip Proofs.PyRoundTrip2 Proofs.PyRoundTrip3 Gen.PyFuncs.
 Import ListNotations.
 
 (* the builder: header whose PARAMETER DATA LENGTH counts what follows it, then one 16-byte descriptor per dictionary, in order *)
@@ -174,3 +174,31 @@ Proof. exact reportpriority_parse_inverts_build. Qed.
 (* the hypotheses are satisfiable: a descriptor with a 3-byte TransportID *)
 Example C06_py_reportpriority_item : rp_item_ok ([("current_priority", VI 5); ("rtpi", VI 258); ("adlen", VI 3)], [1; 2; 3]).
 Proof. repeat split; try reflexivity. right; right; left; reflexivity. Qed.
+
+(* REPORT TARGET PORT GROUPS: a list of groups, each with its own list of ports — two nested loops in the builder and in the decoder.  The
+   builder, for any number of groups and of ports per group (length-only header format) *)
+Theorem C06_py_rtpg_build : forall (all : list tg_item) (ft : list (String.string * pv)) f, Forall tgi_ok all -> (1 <= f)%nat ->
+  ft = [] \/ ft = [("format_type", PInt 0)] ->
+  call_fun all_tables py_program f RTPGM [PDict (ft ++ [("target_port_group_descriptors", PList (map tgi_dict all))])%list]
+  = Ok (PBytes (int_to_ba (N.of_nat (length (concat (map tgi_bytes all)))) 4 ++ concat (map tgi_bytes all))%list).
+Proof. exact rtpg_build_exact. Qed.
+
+(* and decoding what was built returns exactly what the decoder reports for such a response: FORMAT TYPE 0, the groups with their fields and
+   their ports, whole and in order *)
+Theorem C06_py_rtpg_parse_inverts_build : forall (groups : list (list (String.string * value) * list N)) f,
+  Forall tg_group_ok groups ->
+  (Z.of_nat (fold_right (fun g acc => (8 + 4 * length (snd g) + acc)%nat) 0%nat groups) < 4294967296)%Z ->
+  (2 * fold_right (fun g acc => (8 + 4 * length (snd g) + acc)%nat) 0%nat groups + 4 <= f)%nat ->
+  exists built,
+    call_fun all_tables py_program f RTPGM [PDict [("format_type", PInt 0); ("target_port_group_descriptors", PList (map tg_group_dict groups))]] = Ok (PBytes built) /\
+    call_fun all_tables py_program f RTPG [PBytes built] = Ok (PDict [("format_type", PInt 0); ("target_port_group_descriptors", PList (map tg_group_dict groups))]).
+Proof. exact rtpg_parse_inverts_build. Qed.
+
+Example C06_py_rtpg_group : tg_group_ok
+  ([("asymmetric_access_state", VI 1); ("pref", VI 1); ("ao_sup", VI 1); ("an_sup", VI 0); ("s_sup", VI 1); ("u_sup", VI 0); ("o_sup", VI 1);
+    ("t_sup", VI 0); ("target_port_group", VI 258); ("status_code", VI 2); ("vendor", VI 0); ("target_port_count", VI 2)], [1; 513]).
+Proof.
+  repeat split; try reflexivity.
+  - do 11 right. left. reflexivity.
+  - repeat constructor.
+Qed.
